@@ -292,7 +292,8 @@ class LogicalLinkController(object):
         self.lock = threading.RLock()
         self.cfg = dict()
         self.cfg['recv-miu'] = options.get('miu', 248)
-        self.cfg['send-lto'] = options.get('lto', 500)
+        # the LTO parameter announces multiples of 10 ms in a single octet
+        self.cfg['send-lto'] = 10 * min(options.get('lto', 500) // 10, 255)
         self.cfg['send-lsc'] = options.get('lsc', 3)
         self.cfg['send-agf'] = options.get('agf', True)
         self.cfg['llcp-sec'] = options.get('sec', True)
